@@ -263,6 +263,8 @@ def run_check(check, tier, seed, replay_path=None):
         inconclusive.append('only %d distinct non-trivial events observed (minimum %d)' % (distinct, minimum))
     if merged['cases'] and merged['timeouts'] > 0.01 * merged['cases'] + 2:
         inconclusive.append('%d watchdog timeouts in %d cases' % (merged['timeouts'], merged['cases']))
+    if merged['stats'].get('w10-tests-not-green'):
+        inconclusive.append("the repository's own tests did not pass with the monitors installed (transparency)")
     if flaky:
         inconclusive.append('%d violation(s) did not reproduce in a fresh process' % flaky)
     wall = time.time() - t0
